@@ -1,11 +1,13 @@
 (** correspondence for C11: served metadata (entityID, advertised locations), which handler answers a path, and the exported
     Endpoint methods, against Idp/Router.v *)
-From Saml Require Import Base.Bytes Gen.Facts Gen.Pure Idp.Router.
+From Saml Require Import Base.Bytes Gen.Facts Gen.Pure Idp.Router Xml.Tree Idp.BuilderTypes Idp.Builder Idp.BuiltDoc.
 Inductive c11case :=
 | KMeta (id : Z) (k : rconf) (issuer entity : bytes) (locs : list (Z * bytes))   (* 0 SingleSignOn, 1 SingleLogout, 2 AttributeService *)
 | KRoute (id : Z) (k : rconf) (path : bytes) (h : Z)                              (* -1: no route; 0.. = HHealth, HReady, HMetadata, HCert, HCallback, HSSO, HSLO, HAttr *)
-| KEp (id : Z) (path url host rel abs : bytes).
-Definition c11_id (c : c11case) : Z := match c with KMeta i _ _ _ _ | KRoute i _ _ _ | KEp i _ _ _ _ _ => i end.
+| KEp (id : Z) (path url host rel abs : bytes)
+| KMetaDoc (id : Z) (extra : list (string * dval)) (fn : string) (recv : option dval) (args : list dval) (fresh : list bytes) (obs : xml)
+    (* the served metadata document against the translated builders of metadata.go / identityprovider.go and the generated schema *).
+Definition c11_id (c : c11case) : Z := match c with KMeta i _ _ _ _ | KRoute i _ _ _ | KEp i _ _ _ _ _ | KMetaDoc i _ _ _ _ _ _ => i end.
 Definition svc_code (s : service) : Z := match s with SvcSSO => 0 | SvcSLO => 1 | SvcAttr => 2 end.
 Definition h_code (h : option handler) : Z :=
   match h with None => -1 | Some HHealth => 0 | Some HReady => 1 | Some HMetadata => 2 | Some HCert => 3 | Some HCallback => 4 | Some HSSO => 5 | Some HSLO => 6 | Some HAttr => 7 end.
@@ -17,5 +19,6 @@ Definition c11_ok (c : c11case) : bool :=
   | KRoute _ k path h => Z.eqb (h_code (lookup path (routes (effective k)))) h
   | KEp _ path url host rel ab =>
       let e := {| Endpoint_path := path; Endpoint_url := url |} in beq (Endpoint_Relative e) rel && beq (Endpoint_Absolute e host) ab
+  | KMetaDoc _ extra fn recv args fresh obs => built_matches_with extra fn recv args fresh [] [] "md.EntityDescriptorType" obs
   end.
 Definition c11_bad (cs : list c11case) : list Z := map c11_id (filter (fun c => negb (c11_ok c)) cs).
